@@ -1,4 +1,5 @@
 """C04 — scheduling never breaks safety or well-formedness."""
+import time
 import rwsearch
 import export
 from props.C01 import TRUSTED
@@ -7,7 +8,7 @@ BACKEND_REJECTIONS = (TypeError,)  # precision / memory / window / parallel anal
 
 
 def run(ck):
-    ck.coq_build("Core")
+    ck.coq_build("Core", props=["Props_C04", "Props_C01"])
     ck.extract("Core")
     s = rwsearch.Search(ck, chain=ck.n(2, 3))
     wf = {"wf": 0, "illformed": 0, "compiled": 0, "backend_rejected": 0}
@@ -30,7 +31,7 @@ def run(ck):
             wf["illformed"] += 1
             ck.violation("%s|ill-scoped|%s" % (op, site), dict(replay, result=str(q)),
                          "%s produced a procedure with a use outside the scope of its declaration" % op)
-        if wf["compiled"] + wf["backend_rejected"] < ck.n(150, 3000):
+        if wf["compiled"] + wf["backend_rejected"] < ck.n(40, 1500) and (not s.deadline or time.time() < s.deadline):
             try:
                 q.c_code_str()
                 wf["compiled"] += 1
@@ -41,7 +42,7 @@ def run(ck):
                              "the derived procedure makes the backend crash with %s" % type(e).__name__)
 
     s.after_apply.append(static_checks)
-    findings = s.run(n_programs=ck.n(20, 300), budget_s=ck.n(100, 1300))
+    findings = s.run(n_programs=ck.n(40, 400), budget_s=ck.n(90, 1300))
     for f in findings:
         if f.kind.startswith("derived-"):
             ck.violation(f.key, f.replay, "%s at %s: %s" % (f.op, f.site, f.detail))
